@@ -18,7 +18,9 @@ from __future__ import annotations
 import json
 import multiprocessing as mp
 import os
+import queue
 import random
+import threading
 import time
 from concurrent.futures import ThreadPoolExecutor
 
@@ -37,14 +39,15 @@ HOSTS = [("CLASS EXPRESSION", "CLASS\n  EXPRESSION %s\nEND", "expression"),
          ("CLUSTER FILTER", "CLUSTER\n  FILTER %s\nEND", "filter")]
 
 ALL_KINDS = {"NOT", "NEG", "PAREN", "OR", "AND", "CMP", "ADD", "SUB", "MUL", "DIV", "POW"}
-FUNC_KINDS = {"NEG", "PAREN", "OR", "CMP", "ADD", "MUL"}     # one operator per precedence class (function-leaf runs)
+FUNC_KINDS = {"NEG", "PAREN", "CMP", "ADD", "MUL"}           # one operator per arithmetic class (function-leaf runs)
+FUNC_KINDS_T = {"NEG", "NOT", "PAREN", "OR", "AND", "CMP", "ADD", "MUL"}
 
 
 def consts(**kw):
     c = dict(MaxOps=3, KindsM=ALL_KINDS, CmpOpsM={1}, LogSpM={2}, WithFunc=False,
              Ladder="lark", AndOrParens=True, CmpParens=True, OuterRule="matched", DenoteLadder="ms",
-             AllCmpOps=set(exprtok.CMP_OPS), AllLogSp={1, 2, 3}, AtomIds=set(exprtok.ATOMS),
-             FuncIds=set(exprtok.FUNCS), MaxWalkOps=12)
+             AllCmpOps=set(exprtok.CMP_OPS), RootCmpOps={i for i in exprtok.CMP_OPS if i <= 19}, AllLogSp={1, 2, 3}, AtomIds=set(exprtok.ATOMS),
+             FuncIds=set(exprtok.FUNCS), MaxWalkOps=12, RootKindsS=ALL_KINDS | {"ATOM"})
     c.update(kw)
     return c
 
@@ -62,15 +65,16 @@ def model_jobs(quick):
     """(name, kind, kwargs).  kind: contract (must hold) | lead (mechanism model; a violation is a lead)
     | negative (must be rejected)."""
     n = 3 if quick else 4
+    fk = FUNC_KINDS if quick else FUNC_KINDS_T
     spell = dict(CmpOpsM={1, exprtok.PCT_OP}, LogSpM={1, 2}) if not quick else {}
     jobs = [
         ("m_contract", "contract", CONTRACT_INVS, dict(MaxOps=n, **spell)),
-        ("m_contract_func", "contract", CONTRACT_INVS, dict(MaxOps=3, KindsM=FUNC_KINDS, WithFunc=True)),
+        ("m_contract_func", "contract", CONTRACT_INVS, dict(MaxOps=3, KindsM=fk, WithFunc=True)),
         ("m_mech_wrapped", "lead", ["WrappedLead"], dict(MaxOps=n, OuterRule="startsends")),
         ("m_mech_stable", "lead", ["StableLead"], dict(MaxOps=n, OuterRule="startsends")),
         ("m_mech_regroup", "lead", ["NoRegroupLead"], dict(MaxOps=n, OuterRule="startsends")),
         ("m_mech_regroup_func", "lead", ["NoRegroupLead"],
-         dict(MaxOps=3, KindsM=FUNC_KINDS, WithFunc=True, OuterRule="startsends")),
+         dict(MaxOps=3, KindsM=fk, WithFunc=True, OuterRule="startsends")),
         ("m_neg_swapped", "negative", ["NoRegroup"], dict(MaxOps=2, Ladder="swapped")),
     ]
     if not quick:
@@ -82,8 +86,12 @@ def model_jobs(quick):
 
 
 # ------------------------------------------------------------------------------------------ (G)
-def emit_shapes(ck, n, seed, tag):
-    cfg = tlc.cfg_text(init="SInit", next_="SNext", constants=consts(MaxOps=n), invariants=["Emit"])
+ROOT_GROUPS = [{"CMP"}, {"OR", "AND", "NOT"}, {"ADD", "SUB", "MUL"}, {"DIV", "POW", "NEG", "PAREN", "ATOM"}]
+
+
+def emit_shapes(ck, n, seed, tag, roots=None):
+    cfg = tlc.cfg_text(init="SInit", next_="SNext", invariants=["Emit"],
+                       constants=consts(MaxOps=n, RootKindsS=set(roots or ALL_KINDS | {"ATOM"})))
     r = tlc.run("Expr", cfg, tag=tag, workers=1, seed=seed, timeout=3000, heap="3g")
     ck.add_tlc(tag, r)
     return [p for p in r.prints if isinstance(p, dict) and "src" in p]
@@ -119,7 +127,7 @@ def printed_value(out, keyword):
 
 def replay_tree(args):
     """render one source token sequence, run it through loads / dumps / loads in every host position"""
-    seed, idx, src = args
+    seed, idx, src, hosts = args
     if "loads" not in _W:
         _worker_init()
     loads, dumps = _W["loads"], _W["dumps"]
@@ -127,7 +135,8 @@ def replay_tree(args):
     rng = random.Random(seed * 1000003 + idx)
     text = exprtok.render(src, rng)
     res = {"idx": idx, "text": text, "selfcheck": exprtok.tokenize(text, it) == [list(t) for t in src], "hosts": []}
-    for hi, (name, tmpl, key) in enumerate(HOSTS):
+    for hi in hosts:
+        name, tmpl, key = HOSTS[hi]
         doc = tmpl % text
         try:
             d = loads(doc)
@@ -207,9 +216,9 @@ def signature(v):
     if c == "printed":
         return "C10|printed-differs|%s-%s" % (a.lower(), b.lower()), "dumps prints other tokens than the stored string (%s -> %s)" % (a, b)
     if c == "reload-rejected":
-        return "C10|reload-rejected|%s" % a, "the printed expression is rejected by the parser"
+        return "C10|reload-differs|%s" % a, "the printed expression is rejected by the parser (%s)" % a
     if c == "reload-differs":
-        return "C10|reload-differs|%s-%s" % (a.lower(), b.lower()), "re-loading the printed expression stores a different string (%s -> %s)" % (a, b)
+        return "C10|reload-differs|%s" % a, "re-loading the printed expression stores a different string (%s)" % a
     raise common.MachineryFailure("unknown verdict clause %r" % (v,))
 
 
@@ -222,12 +231,27 @@ class Batch:
                       "drift": 0, "selfcheck_failed": 0, "by_host": {h[0]: 0 for h in HOSTS}, "max_ops": 0,
                       "verdicts": {}}
         self.found = {}          # signature -> (what, example, count)
+        self.per_tree = 2
+        self.keep_all = None     # debugging aid: every violating trace
+        self.all_hosts_upto = 2
+
+    def hosts_of(self, idx, tr):
+        """every tree is loaded in `per_tree` host positions (rotating, so that all six see the same share);
+        small trees, leads and every 10th tree in all six"""
+        n = len(HOSTS)
+        if tr.get("ops", 0) <= self.all_hosts_upto or idx % 10 == 0:
+            return list(range(n))
+        a = (idx + self.ck.seed) % n
+        return sorted({(a + j * (1 + (idx // n) % (n - 1))) % n for j in range(self.per_tree)})
 
     def process(self, trees, origin, part):
         ck, st = self.ck, self.stats
         seed = ck.seed
-        jobs = [(seed, st["trees"] + i, [tuple(t) for t in tr["src"]]) for i, tr in enumerate(trees)]
+        jobs = [(seed, st["trees"] + i, [tuple(t) for t in tr["src"]], self.hosts_of(st["trees"] + i, tr))
+                for i, tr in enumerate(trees)]
+        t1 = time.time()
         results = self.pool.map(replay_tree, jobs, chunksize=64)
+        st["replay_wall_s"] = round(st.get("replay_wall_s", 0) + time.time() - t1, 1)
         traces = {}              # key -> tid
         members = []             # tid -> [(tree index in this batch, host index)]
         rows = []
@@ -238,6 +262,7 @@ class Batch:
                 st["selfcheck_failed"] += 1
                 raise common.MachineryFailure("renderer/tokenizer self-check failed for %r -> %r" % (tr["src"], res["text"]))
             src = [list(t) for t in tr["src"]]
+            drifted = False
             for h in res["hosts"]:
                 st["cases"] += 1
                 ck.count()
@@ -252,9 +277,10 @@ class Batch:
                     continue
                 st["accepted"] += 1
                 st["by_host"][HOSTS[h["h"]][0]] += 1
-                if h["st"] != tr["norm"] and st["drift"] < 10**9:
+                if h["st"] != tr["norm"] and not drifted:
+                    drifted = True           # the mechanism model (Expr.tla builders) predicts another string: a note
                     st["drift"] += 1
-                    if len(ck.drift) < 20:
+                    if len(ck.drift) < 12:
                         ck.drift.append({"source": res["text"], "stored": h["stored"],
                                          "model_predicts_tokens": tr["norm"], "host": HOSTS[h["h"]][0]})
                 key = json.dumps([src, h["st"], h["pr"], h["rlok"], h["rl"]], separators=(",", ":"))
@@ -279,7 +305,9 @@ class Batch:
                 for row in rows[j::nfiles]:
                     f.write(json.dumps(row, separators=(",", ":")) + "\n")
             paths.append(p)
+        t1 = time.time()
         verdicts, rs = validate(paths, "c10_%s_%s" % (self.tag, part))
+        st["validate_wall_s"] = round(st.get("validate_wall_s", 0) + time.time() - t1, 1)
         agg = {"states": 0, "distinct": 0, "wall_s": 0.0, "rc": 0, "depth": None, "violated": None}
         for r in rs:
             agg["states"] += r.states or 0
@@ -303,6 +331,8 @@ class Batch:
                   "hosts": sorted({HOSTS[b][0] for _, b in members[tid]}), "stored": h.get("stored"),
                   "printed": h.get("printed"), "reloaded": h.get("reloaded"), "verdict": v, "origin": origin,
                   "trace": rows[tid]}
+            if self.keep_all is not None:
+                self.keep_all.append((sig, ex["source"], ex["stored"], ex["reloaded"]))
             cur = self.found.get(sig)
             if cur is None:
                 self.found[sig] = [what, ex, len(members[tid])]
@@ -341,25 +371,45 @@ def run(tier):
     try:
         # (G) exhaustive shapes
         if quick:
-            trees = emit_shapes(ck, 3, seed, "c10_shapes")
+            with ThreadPoolExecutor(max_workers=2) as gex:
+                f1 = gex.submit(emit_shapes, ck, 3, seed, "c10_shapes")
+                f2 = gex.submit(emit_walks, ck, 2500, seed + 1, "c10_walks")
+                trees, walks = f1.result(), f2.result()
             ck.sample({"generated": exprtok.render([tuple(t) for t in trees[len(trees) // 2]["src"]], random.Random(0))})
+            ck.sample({"generated": exprtok.render([tuple(t) for t in walks[-1]["src"]], random.Random(0))})
             batch.process(trees, "shapes", "a")
-            nshape = len(trees)
-            walks = emit_walks(ck, 2500, seed + 1, "c10_walks")
             batch.process(walks, "walks", "w")
-            nwalk = len(walks)
+            nshape, nwalk = len(trees), len(walks)
         else:
-            trees = emit_shapes(ck, 4, seed, "c10_shapes")
-            nshape = len(trees)
-            step = 100000
-            for j in range(0, len(trees), step):
-                batch.process(trees[j:j + step], "shapes", "a%d" % (j // step))
-            del trees
-            nwalk = 0
-            for j in range(6):
-                walks = emit_walks(ck, 100000, seed * 100 + j + 1, "c10_walks")
-                nwalk += len(walks)
-                batch.process(walks, "walks", "w%d" % j)
+            batch.per_tree, batch.all_hosts_upto = 3, 3
+            nshape = nwalk = 0
+            q = queue.Queue(maxsize=2)
+
+            def produce():
+                try:
+                    for j, kinds in enumerate(ROOT_GROUPS):
+                        q.put(("shapes", "a%d" % j, emit_shapes(ck, 4, seed, "c10_shapes_%d" % j, roots=kinds)))
+                    for j in range(6):
+                        q.put(("walks", "w%d" % j, emit_walks(ck, 100000, seed * 100 + j + 1, "c10_walks_%d" % j)))
+                    q.put(None)
+                except BaseException as ex:  # noqa: BLE001
+                    q.put(ex)
+            threading.Thread(target=produce, daemon=True).start()
+            while True:
+                item = q.get()
+                if item is None:
+                    break
+                if isinstance(item, BaseException):
+                    raise item
+                origin, part, trees = item
+                if origin == "shapes":
+                    nshape += len(trees)
+                else:
+                    nwalk += len(trees)
+                step = 120000
+                for j in range(0, len(trees), step):
+                    batch.process(trees[j:j + step], origin, "%s_%d" % (part, j // step))
+                del trees
         # (M) results; leads of the mechanism model go through the real code like every other tree
         leads = []
         for name, kind, invs, fut in futs:
@@ -396,6 +446,7 @@ def run(tier):
         "cases": st["cases"], "accepted": st["accepted"], "rejected_by_grammar": st["rejected"],
         "accepted_by_host": st["by_host"], "distinct_traces_validated": st["traces"], "verdicts": st["verdicts"],
         "max_operator_nodes": st["max_ops"], "mechanism_drift_cases": st["drift"],
+        "replay_wall_s": st.get("replay_wall_s"), "validate_wall_s": st.get("validate_wall_s"),
         "gen_wall_s": round(time.time() - t0, 1)})
 
 
